@@ -43,6 +43,8 @@ def rows_of(cat):
 
 
 def install(ctx):
+    from ..core import set_process_time_zone
+    set_process_time_zone(ctx)
     import csep.core.catalogs as cats
 
     def pre(ctx, args, kwargs):
